@@ -555,5 +555,10 @@ Definition stmt_spec_case_ok (c : mstmt * sx) : bool := sx_eqb (reflect_stmt (as
 Definition srho_of (l : list (nat * nat * list (list nat * nat))) : srho :=
   fun c i => match find (fun x => Nat.eqb (fst (fst x)) c && Nat.eqb (snd (fst x)) i) l with
              | Some x => rho_of (snd x) | None => no_parens end.
+(* the generator's statement is inside the surface of the statement theorem (stmt_ok, no bare-column alias without AS,
+   nesting within the depth limit) and its rendering is the token list the real tokenizer produced *)
 Definition stmt_render_case_ok (c : mstmt * srho * list token) : bool :=
-  match c with (s, sr, toks) => tok_eqb (render_stmt sr s) toks end.
+  match c with
+  | (s, sr, toks) =>
+      tok_eqb (render_stmt sr s) toks && stmt_ok s && stmt_bare_alias_free s && (stmt_depth sr s <=? max_recursion_depth)
+  end.
